@@ -2,7 +2,7 @@ From V Require Import Base.Bytes Base.Obs Model.Escape Model.Tok Model.Hole.
 Inductive case :=
 | CEscape (s : bytes)          (* html.EscapeString / escapeAttrValue / a serialised text node *)
 | CTok (s : bytes)             (* the tokenizer fragment on an arbitrary string *)
-| CMini (W : list (list tnode)) (r : env) (t : list tnode).   (* the miniature evaluator of Model/Hole.v on concrete data; W: the component files *)
+| CMini (W : list (env * list tnode)) (r : env) (t : list tnode).   (* the miniature evaluator of Model/Hole.v on concrete data; W: the component files *)
 (* canonical print of a DOM: adjacent text merged, whitespace removed from text, empty text dropped *)
 Definition strip_ws (s : bytes) : bytes := filter (fun c => negb (is_hws c)) s.
 Inductive item := ITxt (s : bytes) | IEl (tag : bytes) (a : list (bytes * bytes)) (k : list item).
